@@ -5,7 +5,8 @@ package main
 // one message route and one query route. Block n writes the tag n under a fixed key of both
 // stores (plus per-height keys that are later deleted, so that pruning, orphan lists and
 // fast-index deletes all happen), which makes the height a value came from readable.
-// (copied between harness/cmd/crashcommit and harness/cmd/querycommit: keep in sync)
+// (started as a copy of harness/cmd/crashcommit/plainapp.go; this one additionally has an ante handler
+// with an account-style sequence, read back by simulations, for the mempool scenarios of C28)
 
 import (
 	"fmt"
@@ -33,6 +34,7 @@ const plainChainID = "verif-plain"
 var (
 	keyX     = []byte("x")   // main store: tag of the last block
 	keyBX    = []byte("b:x") // base store: tag of the last block
+	keySeq   = []byte("seq") // main store: transactions delivered so far (bumped by the ante handler)
 	simMB    = int64(1_000_001)
 	simBM    = int64(1_000_002)
 	plainT0  = time.Unix(1_700_000_000, 0).UTC()
@@ -58,6 +60,24 @@ type PlainApp struct {
 }
 
 type plainHandler struct{ p *PlainApp }
+
+type seqCtxKey struct{}
+
+// ante: like the auth module, read the stored sequence and bump it. DeliverTx commits the bump with the
+// block, CheckTx leaves it in checkState, a simulation in its throw-away cache. The value seen is handed to
+// the message handler so that a simulation can report it.
+func (p *PlainApp) ante(ctx sdk.Context, tx std.Tx, simulate bool) (sdk.Context, sdk.Result, bool) {
+	st := ctx.Store(p.mainKey)
+	seq := readTag(st.Get(nil, keySeq))
+	if seq < 0 {
+		seq = 0
+	}
+	if p.yield != nil {
+		p.yield("n.ante") // a note for the driver (not a gate): when the sequence was read
+	}
+	st.Set(nil, keySeq, tagBytes(seq+1))
+	return ctx.WithValue(seqCtxKey{}, seq), sdk.Result{GasWanted: tx.Fee.GasWanted}, false
+}
 
 func tagBytes(n int64) []byte { return []byte(strconv.FormatInt(n, 10)) }
 
@@ -111,10 +131,13 @@ func (h plainHandler) Process(ctx sdk.Context, msg std.Msg) sdk.Result {
 	}
 	var res sdk.Result
 	switch mc.Counter {
-	case simMB:
-		res.Data = []byte(h.p.readBoth(ctx, "mb"))
-	case simBM:
-		res.Data = []byte(h.p.readBoth(ctx, "bm"))
+	case simMB, simBM:
+		order := "mb"
+		if mc.Counter == simBM {
+			order = "bm"
+		}
+		seq, _ := ctx.Value(seqCtxKey{}).(int64)
+		res.Data = []byte(fmt.Sprintf("%s;s=%d", h.p.readBoth(ctx, order), seq))
 	default:
 		h.p.writeBlock(ctx, mc.Counter)
 	}
@@ -164,6 +187,7 @@ func NewPlainApp(o PlainOpts) (p *PlainApp, err error) {
 	app.MountStoreWithDB(p.baseKey, dbadapter.StoreConstructor, mdb)
 	app.Router().AddRoute(testutils.RouteMsgCounter, plainHandler{p})
 	app.Router().AddRoute("kv", plainHandler{p})
+	app.SetAnteHandler(p.ante)
 	app.SetInitChainer(func(ctx sdk.Context, req abci.RequestInitChain) abci.ResponseInitChain {
 		p.writeBlock(ctx, 1)
 		return abci.ResponseInitChain{}
